@@ -411,7 +411,15 @@ def verdict(prop, tier, seed, merged, l1, t0, level_extra=None, spec="TV_Store")
     for v in merged.get("hangs", []) if prop == "C01" else []:
         new.append((dict(prop="C01", why="the process under test hung or died: %s" % json.dumps(v["what"]), line=0, case=0, shard=v["shard"]),
                     {}, read_ndjson(v["script"])))
-    if prop != "C01" and merged.get("hangs"):
+    # C19: the standard library's own debug precondition on `get_unchecked(_mut)` ends the process (an abort, not a panic)
+    # when an unchecked site that carries no hook of ours is indexed out of range - that is an observation of exactly what
+    # C19 forbids, made by the run time instead of the recorder
+    ub = [v for v in merged.get("hangs", []) if "died" in v["what"] and "unsafe precondition" in v["what"].get("stderr", "")]
+    if prop == "C19":
+        for v in ub:
+            new.append((dict(prop="C19", why="the process under test was stopped by the run time: %s" % v["what"].get("stderr", "")[-300:].strip(),
+                             line=0, case=0, shard=v["shard"]), {}, read_ndjson(v["script"])))
+    if prop != "C01" and [v for v in merged.get("hangs", []) if not (prop == "C19" and v in ub)]:
         raise ToolError("the process under test hung or died while checking %s: %s" % (prop, merged["hangs"][0]["what"]))
     for k in known_hits.values():
         out_lines.append("KNOWN-FINDING: property=%s %s" % (prop, k.get("what", k["id"])))
@@ -626,9 +634,9 @@ def cases_for(prop, tier, seed, pools, toks, ck):
             cases += gen.gen_table_store_cases(lang, rnd, "C11")
     else:
         raise ToolError("no plan for %s" % prop)
-    if prop in ("C03", "C04", "C05", "C08", "C13", "C14"):
+    if prop in ("C03", "C04", "C05", "C06", "C08", "C13", "C14"):
         # a share of the cases is asked a second time through the top-level API (lib.rs): what a user of the library gets
-        api = [gen.via_registry(c) for c in cases if rnd.random() < 0.2]
+        api = [gen.via_registry(c) for c in cases if rnd.random() < 0.2 and sum(1 for o in c.ops if o.get("op") == "add") <= 60]
         cases += [c for c in api if c is not None]
     return cases
 
